@@ -601,6 +601,18 @@ func (e *refEnv) call(n *node, a []val) (val, bool) {
 		if !ok || len(s)*c > 60 {
 			return bad, false
 		}
+		// A count that involves exponentiation is left alone: the known grouping losses around POWER / ^ / EXP
+		// (REPT(s, POWER(10, n / 10)) becomes repeat(s, 10 ^ n / 10)) can turn it into 10^9 repetitions, which
+		// does not finish; the loss itself is found with every other function.
+		explosive := false
+		n.args[1].walk(func(x, _ *node, _ int) {
+			if (x.k == kBin && x.op == "^") || (x.k == kCall && (x.fn == "POWER" || x.fn == "EXP")) {
+				explosive = true
+			}
+		})
+		if explosive {
+			return bad, false
+		}
 		return val{t: tT, s: strings.Repeat(s, c)}, true
 	case "SUBSTITUTE":
 		// the optional 4th argument is an instance number in Excel but a count in replace(): 3 args only
